@@ -222,3 +222,21 @@ pub fn event(name: &str, fields: &[(&str, String)]) {
         let _ = f.write_all(line.as_bytes());
     }
 }
+
+// ---- schedule points: a harness can widen a race window deterministically ----
+// `CICADA_VERIF_DELAY=name1=ms,name2=ms`: sleep at the named point. Without the
+// variable a point does nothing.
+pub fn delay_point(name: &str) {
+    let spec = match std::env::var("CICADA_VERIF_DELAY") {
+        Ok(s) => s,
+        Err(_) => return,
+    };
+    for kv in spec.split(',') {
+        let mut it = kv.splitn(2, '=');
+        if it.next() == Some(name) {
+            if let Some(ms) = it.next().and_then(|v| v.parse::<u64>().ok()) {
+                std::thread::sleep(std::time::Duration::from_millis(ms));
+            }
+        }
+    }
+}
